@@ -17,6 +17,11 @@ INP = (
     ("HAP1_SCAFFOLD_2", (("F", "HAP1_SCAFFOLD_2", 1, 27, 1),)),
     ("scaffold_3", (("F", "scaffold_3", 1, 2, 1),)),
 )
+INP2 = (
+    # a 4-bp contig between two gaps: cuts through it give sub-texel overlaps on both sides
+    ("scaffold_1", (("F", "scaffold_1", 1, 20, 1), ("G", 3, "scaffold"), ("F", "scaffold_1", 24, 27, 1), ("G", 8, "scaffold"), ("F", "scaffold_1", 36, 65, 1))),
+    ("scaffold_3", (("F", "scaffold_3", 1, 2, 1),)),
+)
 BPT = 2.5
 TAGSETS = [(), ("Haplotig",), ("Contaminant",), ("FalseDuplicate",)]
 
@@ -41,7 +46,16 @@ def cases(tier):
                         tags = [()] * np_
                         if tagged_piece is not None:
                             tags[tagged_piece] = t
-                        out.append(pv.make_pv(BPT, pieces, arr, painted, tags))
+                        out.append((INP, pv.make_pv(BPT, pieces, arr, painted, tags)))
+    # second family: one scaffold with a sub-texel contig, two cuts, one piece tagged
+    for pieces in pv.pv_piece_lists(INP2[:1], BPT, max_cuts=2, max_pieces=3, min_pieces=3, margin=e + 2 if tier == "thorough" else 3):
+        for arr in (tuple(((i, 1),) for i in range(3)), tuple(((i, 1),) for i in (1, 0, 2)), (tuple((i, 1) for i in range(3)),)):
+            for painted in ((False,) * len(arr), (True,) * len(arr)):
+                for tagged_piece in range(3):
+                    for t in (("Haplotig",), ("Contaminant",)):
+                        tags = [()] * 3
+                        tags[tagged_piece] = t
+                        out.append((INP2, pv.make_pv(BPT, pieces, arr, painted, tags)))
     return out
 
 
@@ -151,8 +165,8 @@ def check_c11_files(case, files, ctx):
     return None, info
 
 
-def run_one(chk, pvspec, ctx, validate_only=False, extra=None):
-    case = ["cli", pv.jsonable(pvspec)]
+def run_one(chk, inp, pvspec, ctx, validate_only=False, extra=None):
+    case = ["cli", pv.jsonable(pvspec), pv.jsonable(inp)]
     ctx.cur = case
     ctx.evaluations += 1
     ctx.nontrivial += 1
@@ -161,7 +175,7 @@ def run_one(chk, pvspec, ctx, validate_only=False, extra=None):
     try:
         (d / "in").mkdir()
         (d / "out").mkdir()
-        seqs = cli.write_fasta(d / "in" / "asm.fa", INP, width=7)
+        seqs = cli.write_fasta(d / "in" / "asm.fa", inp, width=7)
         cli.write_pretext(d / "in" / "map.agp", pvspec)
         rc, _o, err, exc = cli.invoke_p2a(["-a", d / "in" / "asm.fa", "-p", d / "in" / "map.agp", "-o", d / "out" / "x.fa"])
         if rc != 0:
@@ -181,14 +195,15 @@ def run_one(chk, pvspec, ctx, validate_only=False, extra=None):
 def run_shard(chk, shard, ctx, validate_only=False, extra=None):
     _, chunk, chunks, tier = shard
     cs = cases(tier)
-    for i, pvspec in enumerate(cs):
+    for i, (inp, pvspec) in enumerate(cs):
         if i % chunks == chunk:
-            run_one(chk, pvspec, ctx, validate_only=validate_only, extra=extra)
+            run_one(chk, inp, pvspec, ctx, validate_only=validate_only, extra=extra)
     ctx.count("cli_runs", sum(1 for i in range(len(cs)) if i % chunks == chunk))
     if chunk == 0 and cs:
-        ctx.sample({"cli": "pretext-to-asm -a asm.fa -p map.agp -o x.fa", "pretext": pv.jsonable(cs[0]), "input": pv.jsonable(INP)})
+        ctx.sample({"cli": "pretext-to-asm -a asm.fa -p map.agp -o x.fa", "pretext": pv.jsonable(cs[0][1]), "input": pv.jsonable(cs[0][0])})
 
 
 def replay(chk, case, ctx, validate_only=False, extra=None):
     _, pvspec = case[:2]
-    run_one(chk, (pvspec[0], pv.tuplify(pvspec[1])), ctx, validate_only=validate_only, extra=extra)
+    inp = pv.tuplify(case[2]) if len(case) > 2 else INP
+    run_one(chk, inp, (pvspec[0], pv.tuplify(pvspec[1])), ctx, validate_only=validate_only, extra=extra)
